@@ -127,7 +127,9 @@ func mpSchemeTargets() []*Target {
 					Kinds: []Kind{{Name: "agg,crp", Class: "share", Names: []string{"c0Agg", "crp"}, Make: func(e *Env, g *Gen) []interface{} {
 						return []interface{}{ksShare(e, g, e.MaxLevel()-1), ksCRP(e, e.MaxLevel()-1, "s2e")}
 					}}},
-					Out: &OutSpec{Shapes: []Shape{ShapeDirtyWords}, New: func(e *Env, in []interface{}, dDeg, dLvl int) interface{} { return e.NewCt(1+dDeg, e.MaxLevel()-1+dLvl) }},
+					Out: &OutSpec{Shapes: []Shape{ShapeDirtyWords}, New: func(e *Env, in []interface{}, dDeg, dLvl int) interface{} {
+						return e.NewCt(1+dDeg, e.MaxLevel()-1+dLvl)
+					}},
 					Call: func(rcv interface{}, in []interface{}, o interface{}) (interface{}, error) {
 						return o, rcv.(P).GetEncryption(in[0].(multiparty.KeySwitchShare), in[1].(multiparty.KeySwitchCRP), asCt(o))
 					}},
@@ -309,7 +311,9 @@ func mpSchemeTargets() []*Target {
 					Kinds: []Kind{{Name: "agg,crs", Class: "share", Names: []string{"c0Agg", "crs"}, Make: func(e *Env, g *Gen) []interface{} {
 						return []interface{}{ksShare(e, g, e.MaxLevel()-1), ksCRP(e, e.MaxLevel()-1, "s2e")}
 					}}},
-					Out: &OutSpec{Shapes: []Shape{ShapeDirtyWords}, New: func(e *Env, in []interface{}, dDeg, dLvl int) interface{} { return e.NewCt(1+dDeg, e.MaxLevel()-1+dLvl) }},
+					Out: &OutSpec{Shapes: []Shape{ShapeDirtyWords}, New: func(e *Env, in []interface{}, dDeg, dLvl int) interface{} {
+						return e.NewCt(1+dDeg, e.MaxLevel()-1+dLvl)
+					}},
 					Call: func(rcv interface{}, in []interface{}, o interface{}) (interface{}, error) {
 						return o, rcv.(P).GetEncryption(in[0].(multiparty.KeySwitchShare), in[1].(multiparty.KeySwitchCRP), asCt(o))
 					}},
